@@ -3,9 +3,10 @@
   Property theorems only; helper lemmas live in Rox/Lemmas.
 -/
 import Rox.Spec.Tree
+import Rox.Lemmas.BInv4
 
 namespace Rox.Props.C02
-open Rox Rox.Spec
+open Rox Rox.Spec Rox.Lemmas
 
 /-- The executable form used by the search is exactly the invariant `WF`. -/
 theorem wfArenaB_iff (a : Arena) : wfArenaB a = true ↔ WF a := by
@@ -69,5 +70,49 @@ theorem wfArenaB_iff (a : Arena) : wfArenaB a = true ↔ WF a := by
         · right; simpa [h1] using this
         · left; simpa using h1
       · rfl
+
+/-- **Link structure of every parsed document** (all inputs, all options): the arena the parser
+returns has exactly one parentless node (id 0, the Root); every other node has a parent with a
+smaller id that is a Root or an Element; ids are dense and in document (pre-order) order; and the
+stored `prev_sibling`, `last_child`, `next_subtree` links are exactly the ones the parent links
+determine. Proved through the builder invariant `BInv`, which holds after *any* sequence of
+builder operations (`Rox.Lemmas.parseCtx_binv`). -/
+theorem parsed_links (T : Tables) (txt : Bytes) (opt : Opt) (d : Doc)
+    (h : parse T txt opt = .ok d) : LinkWF d.nodes :=
+  parse_linkWF T txt opt d h
+
+/-- `WF` is the link structure plus "no two adjacent Text siblings". -/
+theorem wf_iff_links (a : Arena) :
+    WF a ↔ LinkWF a ∧ ∀ i j, i < a.size → prevSib a i = some j →
+      ¬ (kindIs a i Kind.isText = true ∧ kindIs a j Kind.isText = true) := by
+  constructor
+  · intro h
+    refine ⟨⟨h.nonempty, h.root, h.parent_lt, h.not_root, h.preorder, h.prev, h.last, h.next, ?_⟩, h.no_adjacent_text⟩
+    intro i hi
+    unfold par
+    have : a[i]? = none := by rw [Array.getElem?_eq_none]; exact hi
+    rw [this]; rfl
+  · rintro ⟨h, ht⟩
+    exact ⟨h.nonempty, h.root, h.parent_lt, h.not_root, h.preorder, h.prev, h.last, h.next, ht⟩
+
+/-- Exactly one parentless node: node 0. -/
+theorem only_root_is_parentless (T : Tables) (txt : Bytes) (opt : Opt) (d : Doc)
+    (h : parse T txt opt = .ok d) (i : Nat) (hi : i < d.nodes.size) : par d.nodes i = none ↔ i = 0 := by
+  have hw := parsed_links T txt opt d h
+  constructor
+  · intro hp
+    by_cases h0 : i = 0
+    · exact h0
+    · obtain ⟨p, hp', _⟩ := hw.parent_lt i (by omega) hi
+      rw [hp'] at hp; simp at hp
+  · rintro rfl; exact hw.root.1
+
+/-- Pre-order: the subtree of every node is a contiguous interval of ids starting at the node. -/
+theorem subtree_is_interval (T : Tables) (txt : Bytes) (opt : Opt) (d : Doc)
+    (h : parse T txt opt = .ok d) (x m j : Nat) (hm : m < d.nodes.size)
+    (hanc : isAncOrSelf d.nodes x m = true) (h1 : x ≤ j) (h2 : j ≤ m) :
+    isAncOrSelf d.nodes x j = true := by
+  have hw := parsed_links T txt opt d h
+  exact anc_between d.nodes hw.parentLt hw.preorder' hw.hasParent m x hm hanc j h1 h2
 
 end Rox.Props.C02
